@@ -3,7 +3,7 @@
    stay the extracted inductive types. *)
 From Coq Require Import Extraction ExtrOcamlBasic.
 From Wencry Require Import Bytes AesSpec AesModel ModesSpec ModesModel HashSpec HashModel
-     Base64Spec Base64Model FileModel FileSpec PipeConc CliModel.
+     Base64Spec Base64Model FileModel FileSpec PipeConc CliModel SrcRun.
 Extraction Language OCaml.
 Set Extraction Optimize.
 Extraction "model.ml"
@@ -18,4 +18,6 @@ Extraction "model.ml"
   FileModel.enc FileModel.enc_writes FileModel.dec FileModel.ver FileModel.verify FileModel.loads_of FileModel.pipe_seq
   FileSpec.wenc_spec FileSpec.wenc_length
   CliModel.cli
+  SrcRun.src_hash_string SrcRun.src_hash_file SrcRun.src_aes SrcRun.src_mode SrcRun.src_b64_encode SrcRun.src_b64_decode
+  SrcRun.src_b64_valid SrcRun.iob_state SrcRun.src_load SrcRun.src_export
   PipeConc.tag_run PipeConc.tag_tr PipeConc.tag_event PipeConc.terminal PipeConc.output PipeConc.crashed PipeConc.enabled_count.
